@@ -254,6 +254,10 @@ pub trait Property: Sync {
     fn case_timeout_s(&self) -> u64 {
         120
     }
+    /// seconds the deterministic stages (enumeration, bundled models, fuzzing) may take in total
+    fn extra_stage_timeout_s(&self) -> u64 {
+        2400
+    }
     /// bound on proptest's shrinking (lower it when one case is expensive, e.g. spawns a process)
     fn max_shrink_iters(&self) -> u32 {
         3000
@@ -331,8 +335,25 @@ pub fn run_property<P: Property>(prop: &P, tier: Tier, seed: u64) -> RunOutcome 
     }
     stats.stages.insert("replayed_files".into(), json!(replayed));
 
-    // stage 2: deterministic extra stages
-    if let Some(f) = prop.extra_stages(tier, seed, &mut stats) {
+    // stage 2: deterministic extra stages (guarded: a hang or blow-up is inconclusive, never a violation)
+    let stage_done = Arc::new(AtomicBool::new(false));
+    {
+        let stage_done = stage_done.clone();
+        let limit = prop.extra_stage_timeout_s();
+        std::thread::spawn(move || {
+            let t = Instant::now();
+            while !stage_done.load(Ordering::SeqCst) {
+                std::thread::sleep(Duration::from_millis(500));
+                if t.elapsed().as_secs() > limit {
+                    println!("INCONCLUSIVE: the deterministic stages ran for more than {limit}s (hang or blow-up); no verdict");
+                    std::process::exit(2);
+                }
+            }
+        });
+    }
+    let extra = prop.extra_stages(tier, seed, &mut stats);
+    stage_done.store(true, Ordering::SeqCst);
+    if let Some(f) = extra {
         if let Some(k) = known_match(&known, id, &f) {
             known_hits.push((k.signature.clone(), k.what.clone()));
         } else {
